@@ -102,6 +102,71 @@ type Graph struct {
 	Params []*Var // receiver first if any
 	Lits   map[string]*LitInfo
 	Unsup  []string
+	Sites  []*Site
+
+	sitesLocated bool
+}
+
+// Site is a panic-capable construct recorded while building: an implicit or
+// explicit pointer dereference, an index or slice expression, a single-value
+// type assertion.
+type Site struct {
+	Kind string // deref index slice assert1
+	Why  string
+	Pos  token.Pos
+	T    *Term // the term created at the site (locates the evaluating node)
+	Base *Term
+	Idx  *Term
+	Lo   *Term
+	Hi   *Term
+	// LoopBound: the index is the counter of a classic for loop running
+	// inside [0, len(LoopBound))
+	LoopBound *Term
+	Inst      *Instance
+	Node *Node
+}
+
+// locateSites finds, for every recorded site, the node that evaluates it.
+func (g *Graph) locateSites() {
+	if g.sitesLocated {
+		return
+	}
+	g.sitesLocated = true
+	want := map[*Term][]*Site{}
+	for _, s := range g.Sites {
+		if s.T != nil {
+			want[s.T] = append(want[s.T], s)
+		}
+	}
+	var walk func(t *Term, n *Node, depth int)
+	walk = func(t *Term, n *Node, depth int) {
+		if t == nil || depth > 40 {
+			return
+		}
+		for _, s := range want[t] {
+			if s.Node == nil {
+				s.Node = n
+			}
+		}
+		for _, a := range t.Args {
+			walk(a, n, depth+1)
+		}
+	}
+	for _, n := range g.Nodes {
+		for _, t := range n.Src {
+			walk(t, n, 0)
+		}
+		for _, t := range n.Calls {
+			walk(t, n, 0)
+		}
+		for _, t := range n.Results {
+			walk(t, n, 0)
+		}
+		walk(n.Target, n, 0)
+		walk(n.Value, n, 0)
+		walk(n.Cond, n, 0)
+		walk(n.X, n, 0)
+	}
 }
 
 type LitInfo struct {
